@@ -421,6 +421,22 @@ func runC07(seed uint64, tier, dir, replay string) error {
 			add(kind, "word-maxed", c)
 		}
 	}
+	// one frame of every controller-side message kind, whatever the seed: every 16-bit position set
+	// to 0, 8 and 0xffff (the length field of every element of every kind is among them)
+	for k := 0; k < 17; k++ {
+		g.forceKind = k
+		m, _, kind, _ := g.message(2)
+		g.forceKind = -1
+		b, ok := marshalSafe(m)
+		if !ok || len(b) < 8 || len(b) > 1500 {
+			continue
+		}
+		for _, v := range []uint16{0, 8, 0xffff} {
+			for _, c := range wordSweep(b, v, 160, rng) {
+				add(kind, "kind-word-sweep", c)
+			}
+		}
+	}
 	// nested containers: a conntrack action around one or two actions of every kind, inside a
 	// packet-out; every 16-bit position of the frame set to 0, 8 and 0xffff (the nested
 	// action's own length field is among them)
@@ -469,7 +485,7 @@ func runC07(seed uint64, tier, dir, replay string) error {
 		o.Meta["direct_violations"] = direct
 	}
 	o.Meta["outcomes"] = outcomes
-	o.Meta["rule"] = "the parser entry point on: all 256 message-type bytes on 8- and 64-byte frames; inputs of 0..7 bytes; multipart requests and replies of every multipart type 0..16 and experimenter with bodies of 0..200 bytes; for random valid frames of every kind (see C05) the frame itself, its truncation at every offset (sampled above 160 bytes), 16-bit positions in the first 96 bytes set to 0 / 1 / 0xffff / +-1 / +-8 / a random byte, and structure-blind mutations; every 16-bit position at an even offset of whole frames set to 0 and to 0xffff (sampled above 260 positions); packet-outs carrying a conntrack action around one or two nested actions of every kind, every 16-bit position set to 0, 8 and 0xffff; frames at the 64 KiB limit for every list decoder (multipart records of each type with the length field at 65535 and buffers of 65535 and 65600 bytes, instructions, actions, match fields, buckets, hello elements, ports, tlv maps, a nested bundle; tlv maps also pairwise different); conntrack actions nested 12..400 deep (thorough: up to 2700) and bundle-adds nested as deep; packet-ins whose IPv6 extension headers carry Hdr Ext Len 0/1/31/254/255 on packets long enough to hold them; every frame (except the 64 KiB ones) is parsed a second time from a buffer with 96 bytes of spare capacity holding other data, as the stream's pooled buffers have (oracle only; recorded when it fails); each parse runs in a worker subprocess under a 3 s wall-clock limit, a 1 GiB heap limit and an allocation budget of 512 bytes per input byte + 256 KiB and a processor-time budget of 30 us per input byte + 0.4 s (ten times what the slowest legitimate decode needs); distinct by kind x input kind x outcome x size bucket"
+	o.Meta["rule"] = "the parser entry point on: all 256 message-type bytes on 8- and 64-byte frames; inputs of 0..7 bytes; multipart requests and replies of every multipart type 0..16 and experimenter with bodies of 0..200 bytes; for random valid frames of every kind (see C05) the frame itself, its truncation at every offset (sampled above 160 bytes), 16-bit positions in the first 96 bytes set to 0 / 1 / 0xffff / +-1 / +-8 / a random byte, and structure-blind mutations; every 16-bit position at an even offset of whole frames set to 0 and to 0xffff (sampled above 260 positions); one frame of every controller-side message kind with every 16-bit position set to 0, 8 and 0xffff; packet-outs carrying a conntrack action around one or two nested actions of every kind, every 16-bit position set to 0, 8 and 0xffff; frames at the 64 KiB limit for every list decoder (multipart records of each type with the length field at 65535 and buffers of 65535 and 65600 bytes, instructions, actions, match fields, buckets, hello elements, ports, tlv maps, a nested bundle; tlv maps also pairwise different); conntrack actions nested 12..400 deep (thorough: up to 2700) and bundle-adds nested as deep; packet-ins whose IPv6 extension headers carry Hdr Ext Len 0/1/31/254/255 on packets long enough to hold them; every frame (except the 64 KiB ones) is parsed a second time from a buffer with 96 bytes of spare capacity holding other data, as the stream's pooled buffers have (oracle only; recorded when it fails); each parse runs in a worker subprocess under a 3 s wall-clock limit, a 1 GiB heap limit and an allocation budget of 512 bytes per input byte + 256 KiB and a processor-time budget of 30 us per input byte + 0.4 s (ten times what the slowest legitimate decode needs); distinct by kind x input kind x outcome x size bucket"
 	return o.Close()
 }
 
